@@ -263,10 +263,12 @@ def census_sentence(prop):
     for fname, rid, what in (('boundaries.json', 'RB', 'ordering comparisons split at the reviewed side of equality'),
                              ('amounts.json', 'RA', 'flow-control / budget calls receive the amount derived from the reviewed source'),
                              ('calls.json', 'RC', 'reviewed steps are still taken on every non-error path or at all, directly or through helpers'),
-                             ('guards.json', 'RG', 'reviewed actions execute under exactly the reviewed set of tests (control dependence)'),
+                             ('guards.json', 'RG', 'reviewed actions (error exits, calls of mutating h2 methods, field writes, Pending / None answers) execute under the reviewed tests *and outcomes* (control dependence; outcomes written independently of spelling: T/F, eq/ne/lt/le/gt/ge on canonically ordered operands, match arms)'),
                              ('writes.json', 'RW', 'reviewed bookkeeping assignments are still performed'),
                              ('codes.json', 'RE', 'reviewed error sites still pass their reviewed HTTP/2 error code'),
-                             ('inits.json', 'RI', 'reviewed configuration / limit fields are initialised from their reviewed source')):
+                             ('inits.json', 'RI', 'reviewed configuration / limit fields are initialised from their reviewed source'),
+                             ('predicates.json', 'RP', 'boolean functions compute the reviewed truth table over their atoms (extracted from MIR; calls / fields two-valued, comparisons lt/eq/gt, matches per arm), however they are written'),
+                             ('updates.json', 'RU', 'in-place updates of counters / ledgers / flag octets keep their operator (+= stays +=) and the source of their amount')):
         try:
             with open(os.path.join(base, fname)) as fh:
                 n = sum(1 for e in json.load(fh) if prop in e['props'])
@@ -403,12 +405,13 @@ def run_property(prop, tier='quick', out=sys.stdout):
             'rule': 'one obligation per (rule, instance) discovered in the MIR of the current tree; an instance is a call site, function exit, table row or field write named by the rule; distinct by structural key',
             'samples': samples[:40],
             'checker_cmd': './check %s --tier %s' % (prop, tier),
-            'trusted_base': ['rustc nightly MIR construction and Instance::try_resolve', 'driver/ (h2facts)', 'h2lint engine', 'ref/*.json reference tables'],
+            'trusted_base': ['rustc nightly MIR construction and Instance::try_resolve', 'driver/ (h2facts)', 'h2lint engine (incl. its program normalisation: jump threading of boolean temporaries, MIR inlining of functions absent from rules/known_fns.json, equivalent presentations of comparisons)', 'ref/*.json reference tables', 'rules/*.json reviewed instance tables'],
             'exhaustive': bool(getattr(mod, 'EXHAUSTIVE', False)),
             'configs': configs,
             'tree_hash': thash,
             'source': src,
-            'analysed': {'bodies': len(f0.fns), 'call_sites': f0.stats['calls'], 'resolved_calls': f0.stats['resolved']},
+            'analysed': {'bodies': len(f0.fns), 'call_sites': f0.stats['calls'], 'resolved_calls': f0.stats['resolved'],
+                         'new_helpers_not_inlined': sorted(getattr(f0, 'new_fns', ()))[:20]},
             'rules': rules_ev,
             'known_findings_matched': [kf['key'] for kf, _ in known_hits],
             'not_decided': getattr(mod, 'NOT_DECIDED', ''),
